@@ -458,6 +458,11 @@ impl<const N: usize> VxSliceStr for [&'static str; N] {
 pub trait VxAsStr { spec fn sview(&self) -> Seq<char>; fn vx_str(&self) -> (r: &str) ensures r@ == self.sview(); }
 impl VxAsStr for String { open spec fn sview(&self) -> Seq<char> { self@ } #[verifier::external_body] fn vx_str(&self) -> (r: &str) { self.as_str() } }
 impl VxAsStr for str { open spec fn sview(&self) -> Seq<char> { self@ } #[verifier::external_body] fn vx_str(&self) -> (r: &str) { self } }
+/// Display of String / str / char as used by `{}` in format!
+pub trait VxToString { spec fn dview(&self) -> Seq<char>; fn vx_string(&self) -> (r: String) ensures r@ == self.dview(); }
+impl VxToString for String { open spec fn dview(&self) -> Seq<char> { self@ } #[verifier::external_body] fn vx_string(&self) -> (r: String) { self.clone() } }
+impl VxToString for str { open spec fn dview(&self) -> Seq<char> { self@ } #[verifier::external_body] fn vx_string(&self) -> (r: String) { self.to_string() } }
+impl VxToString for char { open spec fn dview(&self) -> Seq<char> { seq![*self] } #[verifier::external_body] fn vx_string(&self) -> (r: String) { self.to_string() } }
 #[verifier::external_body] pub fn cat1(p0: &str) -> (r: String) ensures r@ == p0@ { [p0].concat() }
 #[verifier::external_body] pub fn cat2(p0: &str, p1: &str) -> (r: String) ensures r@ == p0@ + p1@ { [p0, p1].concat() }
 #[verifier::external_body] pub fn cat3(p0: &str, p1: &str, p2: &str) -> (r: String) ensures r@ == p0@ + p1@ + p2@ { [p0, p1, p2].concat() }
@@ -480,6 +485,16 @@ impl VxStrSet for std::collections::HashSet<String> {
     #[verifier::external_body] fn vx_insert(&mut self, k: String) -> (r: bool) { self.insert(k) }
     #[verifier::external_body] fn vx_remove(&mut self, k: &str) -> (r: bool) { self.remove(k) }
 }
+
+// ---------------------------------------------------------------- `{:02}` of an integer (core::fmt: zero-padded to width 2)
+pub uninterp spec fn dec_other(n: int) -> Seq<char>;
+pub open spec fn digit_char(d: int) -> char { (('0' as u32) + d as u32) as char }
+pub open spec fn pad2_spec(n: int) -> Seq<char> { if 0 <= n <= 99 { seq![digit_char(n / 10), digit_char(n % 10)] } else { dec_other(n) } }
+pub trait VxPad2 { spec fn ival(self) -> int; fn vx_pad2(self) -> (r: String) ensures r@ == pad2_spec(self.ival()); }
+impl VxPad2 for i32 { open spec fn ival(self) -> int { self as int } #[verifier::external_body] fn vx_pad2(self) -> (r: String) { format!("{:02}", self) } }
+impl VxPad2 for u32 { open spec fn ival(self) -> int { self as int } #[verifier::external_body] fn vx_pad2(self) -> (r: String) { format!("{:02}", self) } }
+impl VxPad2 for u8 { open spec fn ival(self) -> int { self as int } #[verifier::external_body] fn vx_pad2(self) -> (r: String) { format!("{:02}", self) } }
+impl VxPad2 for usize { open spec fn ival(self) -> int { self as int } #[verifier::external_body] fn vx_pad2(self) -> (r: String) { format!("{:02}", self) } }
 
 // ---------------------------------------------------------------- Vec idioms
 pub trait VxVec<T> {
@@ -544,7 +559,34 @@ impl NaiveDate {
                 r.is_some() ==> r.unwrap().ymd() == (year as int, month as int, day as int)
     { unimplemented!() }
 }
+pub struct ChronoParseError { pub kind: u8 }
+pub uninterp spec fn pfs_ok(s: Seq<char>, fmt: Seq<char>) -> bool;
+pub uninterp spec fn pfs_ymd(s: Seq<char>, fmt: Seq<char>) -> (int, int, int);
+impl NaiveDate {
+    /// chrono::NaiveDate::parse_from_str: left uninterpreted (its format language is not modelled)
+    #[verifier::external_body] pub fn parse_from_str(s: &str, fmt: &str) -> (r: Result<NaiveDate, ChronoParseError>)
+        ensures r.is_ok() == pfs_ok(s@, fmt@), (match r { Ok(d) => d.ymd() == pfs_ymd(s@, fmt@), Err(_) => true })
+    { unimplemented!() }
+    #[verifier::external_body] pub fn year(&self) -> (r: i32) ensures r as int == self.y() { unimplemented!() }
+    #[verifier::external_body] pub fn month(&self) -> (r: u32) ensures r as int == self.m() { unimplemented!() }
+    #[verifier::external_body] pub fn day(&self) -> (r: u32) ensures r as int == self.d() { unimplemented!() }
+    /// chrono `format("%y%m%d")` rendered to a string: two-digit year of the century, month, day, zero padded
+    #[verifier::external_body] pub fn vx_fmt_yymmdd(&self) -> (r: String)
+        ensures r@ == crate::vx::pad2_spec(self.y() % 100) + crate::vx::pad2_spec(self.m()) + crate::vx::pad2_spec(self.d())
+    { unimplemented!() }
+}
+/// every NaiveDate / NaiveTime value is a valid calendar date / clock time (chrono type invariant)
+pub broadcast axiom fn axiom_date_valid(d: NaiveDate)
+    ensures #[trigger] valid_ymd(d.y(), d.m(), d.d());
+pub broadcast axiom fn axiom_time_valid(t: NaiveTime)
+    ensures #[trigger] valid_hms(t.h(), t.mi(), t.s());
 impl NaiveTime {
+    #[verifier::external_body] pub fn hour(&self) -> (r: u32) ensures r as int == self.h() { unimplemented!() }
+    #[verifier::external_body] pub fn minute(&self) -> (r: u32) ensures r as int == self.mi() { unimplemented!() }
+    /// chrono `format("%H%M")`
+    #[verifier::external_body] pub fn vx_fmt_hhmm(&self) -> (r: String)
+        ensures r@ == crate::vx::pad2_spec(self.h()) + crate::vx::pad2_spec(self.mi())
+    { unimplemented!() }
     pub uninterp spec fn h(&self) -> int;
     pub uninterp spec fn mi(&self) -> int;
     pub uninterp spec fn s(&self) -> int;
